@@ -146,6 +146,29 @@ def _apply(entry, img, cutoff, order):
     raise ValueError(entry)
 
 
+def _history(ops, img, cutoff, order):
+    """Earlier calls in the same process that share the (shape, cutoff, order) cache key."""
+    from acryo import _utils as U
+    from acryo.backend import Backend
+    from acryo import pipe
+    for op in ops:
+        try:
+            if op == "hp":
+                U.highpass_filter(img, cutoff, order)
+            elif op == "hp_ft":
+                U.highpass_filter_ft(img, cutoff, order)
+            elif op == "pipe_hp":
+                pipe.highpass_filter(cutoff, order)(img, 1.3)
+            elif op == "backend_hp":
+                Backend().highpass_filter(img, cutoff, order)
+            elif op == "lp":
+                U.lowpass_filter(img, cutoff, order)
+            elif op == "lp_ft":
+                U.lowpass_filter_ft(img, cutoff, order)
+        except Exception:  # noqa: BLE001  (the history is context, not the property under test)
+            pass
+
+
 def run_case(inp):
     shape = tuple(inp["shape"])
     cutoff, order, entry = float(inp["cutoff"]), int(inp["order"]), inp["entry"]
@@ -159,6 +182,7 @@ def run_case(inp):
     if entry == "model" and order != 2:
         order = 2
     try:
+        _history(inp.get("history", []), img, cutoff, order)
         out = _apply(entry, img, cutoff, order)
     except Exception as e:  # noqa: BLE001
         V("no-error", f"{type(e).__name__}: {e}")
@@ -179,7 +203,8 @@ def run_case(inp):
     err = np.abs(spec_out - expect).max() / (np.abs(spec_in).max() + 1e-12)
     if err > 2e-4:
         V("gain", f"spectrum differs from 1/(1+(|f|/cutoff)^(2*order)) * input by {err:.3g} "
-                  f"({entry}, shape {shape}, {'odd' if any(s % 2 for s in shape) else 'even'})")
+                  f"({entry}, shape {shape}, {'odd' if any(s % 2 for s in shape) else 'even'}"
+                  + (f", after {inp['history']} with the same shape/cutoff/order" if inp.get("history") else "") + ")")
     if not is_ft:
         if abs(float(out.mean()) - float(img.mean())) > 1e-4 * (1 + abs(float(img.mean()))):
             V("mean", f"mean changed from {img.mean():.6g} to {out.mean():.6g}")
@@ -200,7 +225,9 @@ def oracle(rng, thorough, deep=False, hints=None):
         shape = fixed[it % len(fixed)] if it < 3 * len(fixed) else tuple(int(x) for x in rng.integers(1, 11, size=3))
         cases.append(dict(shape=list(shape), cutoff=float(rng.choice([0.1, 0.2, 0.35, 0.5, 0.8, 0.9, 0.0, -0.5, 1.5])),
                           order=int(rng.choice([1, 2, 3])), entry=entries[it % len(entries)],
-                          seed=int(rng.integers(0, 10000))))
+                          seed=int(rng.integers(0, 10000)),
+                          history=[["hp", "hp_ft", "pipe_hp", "backend_hp", "lp", "lp_ft"][int(k)]
+                                   for k in rng.integers(0, 6, size=int(rng.integers(1, 4)))] if it % 2 else []))
     viols, stats = [], {"by_entry": {}, "samples": [{"oracle_case": c} for c in cases[:2]]}
     for c in cases:
         stats["by_entry"][c["entry"]] = stats["by_entry"].get(c["entry"], 0) + 1
